@@ -324,7 +324,7 @@ pub fn check(c: &Case, cs: &mut CaseStats) -> Result<(), String> {
         }
         if tolv < 0.125 * before.volume {
             let tolc = 2. * before.r * tolv / before.volume + pos;
-            let dc = after.centroid.distance(before.centroid);
+            let dc = tol::active_distance(c, after.centroid, before.centroid);
             if dc > tolc {
                 return Err(format!("cell {i}: centroid moved by {:e} > tol {:e} after adding generators outside its safety ball", dc, tolc));
             }
